@@ -220,6 +220,7 @@ class Ctx(object):
         self.samples = []
         self.violations = []
         self.viol_count = 0
+        self.unclassified = 0
         self.harness_errors = []
         self.inconclusive = []
         self.extra = {}
@@ -259,7 +260,12 @@ class Ctx(object):
     # verdicts
     def fail(self, monitor, detail, mech=None, case=None):
         self.viol_count += 1
-        if len(self.violations) < self.MAX_VIOL or (mech and not any(v['mech'] == mech for v in self.violations)):
+        if mech:
+            keep = sum(1 for v in self.violations if v['mech'] == mech) < 3
+        else:
+            self.unclassified += 1
+            keep = self.unclassified <= self.MAX_VIOL
+        if keep:
             self.violations.append({'monitor': monitor, 'mech': mech, 'detail': _short(detail),
                                     'case': self.current if case is None else case,
                                     'prop': self.prop, 'seed': self.seed, 'shard': self.shard})
@@ -272,7 +278,7 @@ class Ctx(object):
         return True
 
     def full(self):
-        return len(self.violations) >= self.MAX_VIOL
+        return self.unclassified >= self.MAX_VIOL
 
     def call(self, fn, *a, **k):
         """call library code: returns ('ok', value) | ('exc', exception).  BaseExceptions of the harness propagate
